@@ -184,10 +184,20 @@ func (s *Store) List(
 		limit = defaultListLimit
 	}
 
+	// Descending order walks the runs newest first, so that offset and limit select a page of the descending
+	// enumeration (and not the reverse of an ascending page).
+	runIDs := s.order
+	if order == workflow.OrderTypeDescending {
+		runIDs = make([]string, 0, len(s.order))
+		for i := len(s.order) - 1; i >= 0; i-- {
+			runIDs = append(runIDs, s.order[i])
+		}
+	}
+
 	filter := workflow.MakeFilter(filters...)
 	filteredStore := make(map[int64]*workflow.Record)
 	increment := int64(1)
-	for _, runID := range s.order {
+	for _, runID := range runIDs {
 		record, ok := s.store[runID]
 		if !ok {
 			continue
@@ -237,15 +247,6 @@ func (s *Store) List(
 		}
 
 		entries = append(entries, *copyRecord(entry))
-	}
-
-	if order == workflow.OrderTypeDescending {
-		var descEntries []workflow.Record
-		for i := len(entries) - 1; i >= 0; i-- {
-			descEntries = append(descEntries, entries[i])
-		}
-
-		return descEntries, nil
 	}
 
 	return entries, nil
